@@ -81,8 +81,47 @@ fn tystr<'tcx>(ty: Ty<'tcx>) -> String {
     with_no_trimmed_paths!(ty.to_string())
 }
 
-fn path<'tcx>(tcx: TyCtxt<'tcx>, did: DefId) -> String {
+thread_local! {
+    /// local definitions whose printed path is not unique (items declared in different blocks of one function,
+    /// e.g. the `__SerializeWith` wrappers serde derives per field): DefId -> `#k` suffix, k = position in source order
+    static COLLIDING: std::cell::RefCell<std::collections::HashMap<DefId, String>> = std::cell::RefCell::new(std::collections::HashMap::new());
+}
+
+fn plain_path<'tcx>(tcx: TyCtxt<'tcx>, did: DefId) -> String {
     with_no_trimmed_paths!(tcx.def_path_str(did))
+}
+
+fn path<'tcx>(tcx: TyCtxt<'tcx>, did: DefId) -> String {
+    let s = plain_path(tcx, did);
+    match COLLIDING.with(|c| c.borrow().get(&did).cloned()) {
+        Some(suffix) => s + &suffix,
+        None => s,
+    }
+}
+
+fn index_colliding_paths<'tcx>(tcx: TyCtxt<'tcx>, defs: &[LocalDefId]) {
+    let mut by_name: std::collections::BTreeMap<String, Vec<LocalDefId>> = std::collections::BTreeMap::new();
+    for d in defs {
+        // (a tuple struct and its constructor, a field and a variable, ... share a printed path by design)
+        if !matches!(
+            tcx.def_kind(d.to_def_id()),
+            DefKind::Fn | DefKind::AssocFn | DefKind::Closure | DefKind::Struct | DefKind::Enum | DefKind::Union
+        ) {
+            continue;
+        }
+        by_name.entry(plain_path(tcx, d.to_def_id())).or_default().push(*d);
+    }
+    let mut map = std::collections::HashMap::new();
+    for (_, mut ds) in by_name {
+        if ds.len() < 2 {
+            continue;
+        }
+        ds.sort_by_key(|d| tcx.def_span(d.to_def_id()).lo());
+        for (k, d) in ds.iter().enumerate() {
+            map.insert(d.to_def_id(), format!("#{}", k));
+        }
+    }
+    COLLIDING.with(|c| *c.borrow_mut() = map);
 }
 
 fn span_loc<'tcx>(tcx: TyCtxt<'tcx>, span: Span) -> String {
@@ -591,9 +630,10 @@ fn export<'tcx>(tcx: TyCtxt<'tcx>) -> J {
             .copied()
             .filter(|d| !have.contains(d) && matches!(tcx.def_kind(d.to_def_id()), DefKind::Closure))
             .collect();
-        extra.sort_by_key(|d| tcx.def_path_str(d.to_def_id()));
+        extra.sort_by_key(|d| plain_path(tcx, d.to_def_id()));
         all_defs.extend(extra);
     }
+    index_colliding_paths(tcx, &all_defs);
     for ldid in all_defs {
         let did = ldid.to_def_id();
         let kind = tcx.def_kind(did);
@@ -621,9 +661,13 @@ fn export<'tcx>(tcx: TyCtxt<'tcx>) -> J {
                     if matches!(tcx.def_kind(parent), DefKind::Impl { .. }) {
                         let self_ty = tcx.type_of(parent).instantiate_identity().skip_norm_wip();
                         o.push(("impl_self".into(), J::S(tystr(self_ty))));
+                        if let ty::Adt(adt, _) = self_ty.kind() {
+                            o.push(("impl_self_adt".into(), J::S(path(tcx, adt.did()))));
+                        }
                         if let Some(tr) = tcx.impl_opt_trait_ref(parent) {
                             let tr = tr.instantiate_identity().skip_norm_wip();
                             o.push(("impl_trait".into(), J::S(path(tcx, tr.def_id))));
+                            o.push(("impl_trait_local".into(), J::B(tr.def_id.is_local())));
                         }
                     }
                 }
